@@ -11,6 +11,7 @@ package server
 // went away); Stop releases everything.
 
 import (
+	"net"
 	"context"
 	"encoding/binary"
 	"fmt"
@@ -38,6 +39,7 @@ type simZebra struct {
 	rxMsgs  int
 	enabled bool
 	mute    bool // accept the connection but never send the first message
+	nht     *nhtState
 }
 
 func zHeaderSize(v uint8) int {
@@ -78,7 +80,7 @@ func zFrame(v uint8, vrf uint32, cmd uint16, body []byte) []byte {
 func (w *simWorld) zebra() *simZebra { return w.fam.(*simZebra) }
 
 func zebraSetup(w *simWorld) error {
-	z := &simZebra{w: w, version: 6}
+	z := &simZebra{w: w, version: 6, nht: &nhtState{reach: map[string]int64{}, ann: map[string]map[int]uint32{}}}
 	w.fam = z
 	w.net.listen(zebraAddr, &simListener{mode: "accept", handle: func(c *simConn) { z.serve(c) }})
 	return nil
@@ -133,7 +135,151 @@ func (z *simZebra) serve(conn *simConn) {
 	}
 }
 
+// ---------------------------------------------------------------- mode "nht": next-hop tracking
+//
+// C03 names "reachable next hop" as the first step of the decision process.  In gobgp reachability
+// comes from zebra: NEXTHOP_UPDATE messages (an empty next-hop list = unreachable) mark every path
+// through that next hop invalid or valid again.  Two neighbours announce the same prefixes, the
+// first one with the better (shorter) AS_PATH; zebra (ZAPI 6, frr 8.1 layout written here) reports
+// their next hops reachable / unreachable / reachable again with drawn metrics.  Oracle at
+// quiescent points: the best path of every prefix is the better route whose next hop is not known
+// to be unreachable (a first "unreachable" for a next hop never reported reachable is ignored, as
+// the client documents).
+
+func zNexthopUpdate(nh string, metric int64) []byte {
+	ip := net.ParseIP(nh).To4()
+	b := []byte{0, 0, 0, 0, 0, 2, 32}
+	b = append(b, ip...)
+	b = append(b, 2, 0, 0, 0) // route type connect, instance 0, distance 0
+	if metric < 0 {
+		b = append(b, 0, 0, 0, 0, 0)
+		return zFrame(6, 0, 22, b)
+	}
+	m := make([]byte, 4)
+	binary.BigEndian.PutUint32(m, uint32(metric))
+	b = append(b, m...)
+	b = append(b, 1)          // one next hop
+	b = append(b, 0, 0, 0, 0) // vrf
+	b = append(b, 3, 0)       // IPv4+ifindex, flags
+	b = append(b, ip...)
+	b = append(b, 0, 0, 0, 1)
+	return zFrame(6, 0, 22, b)
+}
+
+func genZebraNHT(seed uint64, tier string) *Script {
+	g := newGen(seed)
+	sc := &Script{Family: "zebra", Mode: "nht", Seed: seed}
+	sc.SchedSeed = g.u64() | 1
+	sc.YieldN = pick(g, yieldChoices)
+	sc.SelShuffle = g.p(70)
+	sc.Global = GlobalCfg{AS: 65000, RouterID: "10.0.0.1"}
+	for i := 0; i < 2; i++ {
+		sc.Peers = append(sc.Peers, PeerCfg{Idx: i, Addr: peerAddr(i), RouterID: peerRID(i), Kind: "ebgp", AS: uint32(65001 + i), Families: []string{"ipv4-unicast"}})
+	}
+	var ops []Op
+	add := func(o Op) { o.Actor = 0; ops = append(ops, o) }
+	add(Op{Kind: "up", Peer: 0})
+	add(Op{Kind: "up", Peer: 1})
+	add(Op{Kind: "zenable", N: 6, Arg: "", Arg2: "same", Hex: "nht"})
+	serial := 0
+	pfx := []string{"10.1.0.0/24", "10.1.1.0/24", "10.2.0.0/16"}
+	ann := func(p int, x string) {
+		serial++
+		path := []uint32{uint32(65001 + p)}
+		if p == 1 {
+			path = append(path, 64999) // the second neighbour's route is the worse one
+		}
+		add(Op{Kind: "ann", Peer: p, Family: "ipv4-unicast", Prefix: x, Tag: mkTag(p, serial), Attrs: &AttrSpec{Origin: 0, ASPath: []asSeg{{2, path}}, NextHop: peerAddr(p), MED: -1, LocalPref: -1}})
+	}
+	for _, x := range pfx[:g.rng(1, 3)] {
+		ann(0, x)
+		ann(1, x)
+	}
+	n := g.rng(3, 10)
+	if tier == "thorough" {
+		n = g.rng(6, 24)
+	}
+	for i := 0; i < n; i++ {
+		r := g.n(100)
+		switch {
+		case r < 70:
+			p := g.n(2)
+			m := int64(pick(g, []int{-1, -1, 10, 10, 20}))
+			add(Op{Kind: "znh", Arg: peerAddr(p), N: int(m)})
+		case r < 82:
+			ann(g.n(2), pick(g, pfx))
+		case r < 90:
+			add(Op{Kind: "wd", Peer: g.n(2), Family: "ipv4-unicast", Prefix: pick(g, pfx)})
+		default:
+			add(Op{Kind: "wait", N: pick(g, []int{500, 3000})})
+		}
+		add(Op{Kind: "nhtcheck"})
+	}
+	sc.Phases = []Phase{{Ops: ops, Settle: 3, Check: true}}
+	sc.Final = pick(g, []string{"stop", "stopbgp"})
+	return sc
+}
+
+// nhtState is the model of mode nht.
+type nhtState struct {
+	reach map[string]int64 // next hop -> metric, -1 unreachable (only next hops reported at least once reachable)
+	ann   map[string]map[int]uint32
+}
+
+func (w *simWorld) nhtCheck() {
+	z := w.zebra()
+	st := z.nht
+	synctest.Wait()
+	glob, err := w.listPaths(api.TableType_TABLE_TYPE_GLOBAL, "", famV4, false)
+	if err != nil {
+		w.harnessError("ListPath: %v", err)
+		return
+	}
+	w.mu.Lock()
+	w.checks++
+	w.nonEmpty++
+	w.mu.Unlock()
+	for _, pfx := range sortedKeys(st.ann) {
+		want := -1
+		for _, p := range []int{0, 1} {
+			if _, ok := st.ann[pfx][p]; !ok {
+				continue
+			}
+			if m, known := st.reach[peerAddr(p)]; known && m < 0 {
+				continue
+			}
+			want = p
+			break
+		}
+		got := -1
+		for _, rp := range glob[pfx] {
+			if rp.Best {
+				for p := range w.peers {
+					if rp.Src == peerAddr(p) {
+						got = p
+					}
+				}
+			}
+		}
+		allDown := want < 0 && len(st.ann[pfx]) > 0
+		if allDown {
+			// every candidate's next hop is unreachable: nothing may be usable; gobgp keeps the
+			// paths (marked invalid) and reports one of them first - not judged
+			w.probe("nht_all_next_hops_unreachable")
+			continue
+		}
+		if got != want {
+			w.violate("C03", "best-path-next-hop-reachability", pfx, fmt.Sprintf("best path is from neighbour %d, expected %d (next-hop states reported by zebra: %v; announced by %v)", got, want, st.reach, st.ann[pfx]))
+		} else if want >= 0 {
+			w.probe("nht_best_compared")
+		}
+	}
+}
+
 func genZebra(seed uint64, tier, mode string) *Script {
+	if mode == "nht" {
+		return genZebraNHT(seed, tier)
+	}
 	g := newGen(seed)
 	sc := &Script{Family: "zebra", Mode: mode, Seed: seed}
 	sc.SchedSeed = g.u64() | 1
@@ -211,7 +357,7 @@ func zebraOp(w *simWorld, actor int, op *Op) {
 			z.version = uint8(2 + (op.N-2+1+op.Count%3)%5)
 		}
 		z.mu.Unlock()
-		err := w.s.EnableZebra(context.Background(), &api.EnableZebraRequest{Url: "tcp:" + zebraAddr, Version: uint32(op.N), SoftwareName: op.Arg, MplsLabelRangeSize: uint32(op.Count)})
+		err := w.s.EnableZebra(context.Background(), &api.EnableZebraRequest{Url: "tcp:" + zebraAddr, Version: uint32(op.N), SoftwareName: op.Arg, MplsLabelRangeSize: uint32(op.Count), NexthopTriggerEnable: op.Hex == "nht", NexthopTriggerDelay: 1})
 		w.logf("EnableZebra version=%d software=%q (zebra speaks %d): %v", op.N, op.Arg, z.version, err)
 		if err == nil {
 			z.enabled = true
@@ -268,6 +414,43 @@ func zebraOp(w *simWorld, actor int, op *Op) {
 			w.net.stats.fire("zapi_" + op.Arg)
 		}
 		zebraSettle()
+	case "znh":
+		z.mu.Lock()
+		conn := z.conn
+		z.mu.Unlock()
+		if conn == nil || conn.isClosed() {
+			return
+		}
+		m := int64(op.N)
+		if m >= 0 {
+			z.nht.reach[op.Arg] = m
+		} else if _, known := z.nht.reach[op.Arg]; known {
+			z.nht.reach[op.Arg] = -1
+		}
+		// an update for a next hop that no route uses makes the client unregister and forget it
+		used := false
+		for _, by := range z.nht.ann {
+			for p := range by {
+				if peerAddr(p) == op.Arg {
+					used = true
+				}
+			}
+		}
+		if !used {
+			delete(z.nht.reach, op.Arg)
+			w.probe("nht_update_for_unused_next_hop")
+		}
+		conn.Write(zNexthopUpdate(op.Arg, m))
+		w.net.stats.fire("zapi_nexthop_update")
+		if m < 0 {
+			w.probe("nht_unreachable_sent")
+		} else {
+			w.probe("nht_reachable_sent")
+		}
+		zebraSettle()
+	case "nhtcheck":
+		time.Sleep(2 * time.Second)
+		w.nhtCheck()
 	case "zclose":
 		z.mu.Lock()
 		conn := z.conn
@@ -292,10 +475,21 @@ func zebraOp(w *simWorld, actor int, op *Op) {
 		w.mu.Lock()
 		w.tags[op.Tag] = r
 		w.mu.Unlock()
-		p.announce(r)
+		if p.announce(r) {
+			if z.nht.ann[op.Prefix] == nil {
+				z.nht.ann[op.Prefix] = map[int]uint32{}
+			}
+			z.nht.ann[op.Prefix][op.Peer] = op.Tag
+		}
 		zebraSettle()
 	case "wd":
 		w.peers[op.Peer].withdraw(famByName(op.Family), op.Prefix, 0)
+		if z.nht.ann[op.Prefix] != nil {
+			delete(z.nht.ann[op.Prefix], op.Peer)
+			if len(z.nht.ann[op.Prefix]) == 0 {
+				delete(z.nht.ann, op.Prefix)
+			}
+		}
 		zebraSettle()
 	default:
 		w.harnessError("zebra: unknown op %s", op.Kind)
